@@ -1,3 +1,4 @@
+import SqlModel.Bookkeeping
 import SqlModel
 import SqlProofs.SplitValue
 open Sql
@@ -104,6 +105,36 @@ def cmdViews (s : Array Nat) : String :=
       let v := Sql.tokView defaultSplitCfg t
       s!"{showTT v.1}|{repr v.2.1}|{v.2.2.1}|{v.2.2.2}".replace " " "_")
 
+-- >>> bookkeeping (heap) command ---------------------------------------------------------------
+/-- `heap <leaf> … # <op> …`: leaf = comma-joined hex code points (`-` = empty); op = `self:Class:start:stop:includeEnd:extend`.
+Answers `ok <result> … | <object> …` with result = id of `grp` or the exception name, object = `id:parent:kids:Class:value`. -/
+def cmdHeap (ws : List String) : String :=
+  let ws := ws.filter (· ≠ "")
+  let leaves := ws.takeWhile (· ≠ "#")
+  let ops := (ws.dropWhile (· ≠ "#")).drop 1
+  let pv (w : String) : Text := if w == "-" then [] else (w.splitOn ",").map parseHexWord
+  let h0 := BK.mkStatement (leaves.map pv)
+  let pop (w : String) : Option BK.Op :=
+    match w.splitOn ":" with
+    | [a, c, b, e, i, x] =>
+      match Cls.ofName? c with
+      | some cls => some ⟨a.toNat!, cls, b.toNat!, e.toNat!, i == "1", x == "1"⟩
+      | none => none
+    | _ => none
+  match ops.mapM pop with
+  | none => "bad-request"
+  | some os =>
+    let (h, rs) := BK.runOps (fun h i => BK.strF h 100000 i) h0 os
+    let sv (t : Text) : String := if t.isEmpty then "-" else ",".intercalate (t.map hexDigits)
+    let so (i : Nat) : String :=
+      let o := h.obj i
+      let p := match o.parent with | none => "-" | some p => toString p
+      let k := match o.kids with | none => "L" | some [] => "E" | some ks => ".".intercalate (ks.map toString)
+      s!"{i}:{p}:{k}:{o.cls.name}:{sv o.value}"
+    "ok " ++ " ".intercalate (rs.map fun r => match r with | .ok g => toString g | .error e => e.name) ++ " | " ++
+      " ".intercalate ((List.range h.size).map so)
+-- <<< bookkeeping command -------------------------------------------------------------------------
+
 def handle (line : String) : String :=
   match (line.trimRight.splitOn " ") with
   | "re" :: rest => cmdRe (parseText rest)
@@ -114,6 +145,7 @@ def handle (line : String) : String :=
   | "views" :: rest => cmdViews (parseText rest)
   | "parse" :: rest => cmdParse rest
   | "group" :: rest => cmdGroup rest
+  | "heap" :: rest => cmdHeap rest
   | "acc" :: rest => Sql.Driver.cmdAcc rest   -- accessors (SqlModel/AccDriver.lean), stream S-ACC
   -- >>> formatting-side commands (SqlModel/FilterDriver.lean)
   | "opt" :: rest => Sql.Driver.cmdOpt rest
